@@ -793,6 +793,11 @@ func (db *DB) buildSetIdx(bucket string, r *Record) error {
 
 // buildSortedSetIdx builds sorted set index when opening the DB.
 func (db *DB) buildSortedSetIdx(bucket string, r *Record) error {
+	// records carry their entry only in HintKeyValAndRAMIdxMode; every flag below needs it
+	if r.E == nil {
+		return ErrEntryIdxModeOpt
+	}
+
 	if _, ok := db.SortedSetIdx[bucket]; !ok {
 		db.SortedSetIdx[bucket] = zset.New()
 	}
